@@ -1,2 +1,3 @@
 pub mod values;
 pub mod dag;
+pub mod programs;
